@@ -113,10 +113,11 @@ def durInfos (cat : List Group) (d : Int) : List DurInfo :=
 def markGroup (gid : Nat) (cat : List Group) : List Group :=
   cat.map fun g => if g.gid == gid then { g with deleted := true } else g
 
-/-- `sort.Search(len, Shards[i].ID >= id)` + `MarkDelete = true` on a list sorted by id. -/
+/-- `sort.Search(len, Shards[i].ID >= id)` on a list sorted by id, then `MarkDelete = true` if
+the entry found is the one named (since /repo f9bcf88; before, the first id ≥ `id` was marked). -/
 def markFirstGE (id : Nat) : List CShard → List CShard
   | [] => []
-  | s :: r => if id ≤ s.sid then { s with marked := true } :: r else s :: markFirstGE id r
+  | s :: r => if id ≤ s.sid then (if s.sid == id then { s with marked := true } else s) :: r else s :: markFirstGE id r
 
 /-- the per-group part of `pruneShardGroups`: the id range test uses the first and the last
 shard of the group. -/
